@@ -1,6 +1,8 @@
 package main
 
 import (
+	"fmt"
+	"os"
 	"strings"
 
 	"golang.org/x/tools/go/ssa"
@@ -305,7 +307,8 @@ func runC02(p *Program, r *Result) {
 					core = append(core, "n")
 				case strings.HasPrefix(s, "io.ReadFull(") && strings.HasSuffix(s, ".1 == io.ErrUnexpectedEOF"):
 					core = append(core, "short")
-				case strings.HasPrefix(s, "io.ReadFull(") && strings.HasSuffix(s, ".1 != io.EOF"):
+				case strings.HasPrefix(s, "io.ReadFull(") && (strings.HasSuffix(s, ".1 != io.EOF") || strings.HasSuffix(s, ".1 != nil")):
+					// implied by err == io.ErrUnexpectedEOF
 				case s == "len(Field(Recv.unread)) == 0":
 				case a.Kind == "bool" && a.X != nil && a.X.Op == "Phi":
 					// the merged result of a spliced predicate: its meaning is carried by the threaded facts
@@ -328,6 +331,13 @@ func runC02(p *Program, r *Result) {
 			}
 		}
 		if !found {
+			if os.Getenv("AGECHECK_DEBUG_C02") != "" {
+				for _, ret := range returnsOf(rc) {
+					if !isNilConst(ret.Results[1]) {
+						fmt.Fprintf(os.Stderr, "C02 R02.5 %s: %s\n", r.pos(ret), short(factStrings(ctb.FactsAt(ret.Block()))))
+					}
+				}
+			}
 			r.Bad(rc.String(), "empty-final", "", "no error return under exactly (short read, nonce != 0, n == Overhead): an empty final chunk after a full one would be accepted, so a plaintext would have two chunkings")
 		}
 		// a helper that is still called nonceIsZero (not spliced) really compares with the zero array
